@@ -149,7 +149,7 @@ const (
 func HarnessC04Statement() {
 	st := memory.NewStore()
 	K := verif.Param("K", 1)
-	mkGraph := func(name string) []*dspec {
+	mkGraph := func(name string, K int) []*dspec {
 		g, err := st.NewGraph(ctx, name)
 		verif.Assume(err == nil)
 		n := verif.Choice(name+".n", K+1)
@@ -160,7 +160,7 @@ func HarnessC04Statement() {
 		g.AddTriples(ctx, dtriples(ds))
 		return ds
 	}
-	dg, dh := mkGraph("?g"), mkGraph("?h")
+	dg, dh := mkGraph("?g", K), mkGraph("?h", verif.Param("KH", K))
 	expG, expH := pre(dg), pre(dh)
 	names := []string{"?g", "?h"}
 	wantErr := false
@@ -179,7 +179,7 @@ func HarnessC04Statement() {
 	}
 	cs := verif.Param("CASE", -1)
 	if cs < 0 {
-		cs = verif.Choice("case", 11)
+		cs = verif.Choice("case", 12)
 	}
 	switch cs {
 	case 0:
@@ -221,6 +221,12 @@ func HarnessC04Statement() {
 		// triples and the extra fact on one fresh blank node
 		q = "construct { ?s \"b\"@[] ?o ; \"c\"@[] /u<a> } into ?h from ?g where { ?s \"a\"@[] ?o } ;"
 		reified = true // (the statement itself is not added, only its reification)
+	case 11:
+		// reification where rows differ only in a binding used after the ';': still
+		// one fresh blank node (with its three reification triples and its extra
+		// fact) per solution row
+		q = "construct { ?s \"b\"@[] /u<a> ; \"c\"@[] ?o } into ?h from ?g where { ?s \"a\"@[] ?o } ;"
+		reified = true
 	default:
 		q = "create graph ?g ;"
 		wantErr = true
